@@ -51,6 +51,15 @@ def generate(seed, tier):
         for b in range(a, K):
             w[a][b] = w[b][a] = round(0.1 + rng.random(), 3)
     case["w"] = w
+    if rng.random() < 0.2:
+        # soft memberships inside disjoint community blocks + diagonal affinity: cross-block hyperedges have a Poisson
+        # parameter that is 0 in exact arithmetic (and may round to a tiny negative number)
+        K = 4
+        case["K"] = K
+        half = N // 2
+        case["u"] = [[round(0.1 + rng.random(), 3) if (k < 2) == (i < half) else 0.0 for k in range(K)] for i in range(N)]
+        case["w"] = [[round(0.1 + rng.random(), 3) if a == b else 0.0 for b in range(K)] for a in range(K)]
+        case["block_structured"] = True
     case["max_size"] = rng.randint(2, min(N, 5))
     if mode == "sequences":
         # size sequence first, then a degree sequence with the same total: realisable (from an actual
@@ -231,6 +240,8 @@ def execute(case):
             stats["not_matching"] += 1
         if case.get("first"):
             stats["reused_sampler"] = stats.get("reused_sampler", 0) + 1
+        if case.get("block_structured"):
+            stats["block_structured_models"] = stats.get("block_structured_models", 0) + 1
         stats["accepted_moves"] += a.get("accepted", 0)
         stats["rejected_moves"] += a.get("rejected", 0)
     except Violation as v:
